@@ -110,6 +110,12 @@ class Opaque:
     def __repr__(self):
         return 'Opaque(%s)' % self.kind
 
+    def __eq__(self, other):
+        return isinstance(other, Opaque) and self.kind == other.kind and self.data == other.data
+
+    def __hash__(self):
+        return hash(self.kind)
+
 
 UNIT = Tup([])
 
